@@ -283,12 +283,12 @@ Fixpoint lay (fuel : nat) (t : token) : L unit :=
       | TMacroDef id _ _ _ => check_symbol id DMacro
       | TInvoke name nspan args =>
           s <~ lget ;;
+          lmod (fun s => mkLS (l_scope s) (l_seg s) (l_segs s) (l_log s) (S (l_macro s)) (l_bad s) (l_addrs s)) ;;~
           match find_def (S (List.length (l_scope s))) (l_scope s) name with
           | None => bad (LNoMacro name)
           | Some (params, body) =>
               if negb (Nat.eqb (List.length args) (List.length params)) then bad (LError 7 nspan)
               else
-                lmod (fun s => mkLS (l_scope s) (l_seg s) (l_segs s) (l_log s) (S (l_macro s)) (l_bad s) (l_addrs s)) ;;~
                 vals <~ eval_args args ;;
                 in_scope (macro_scope_name (l_macro s)) false (check_args params vals ;;~ lays body)
           end
